@@ -8,7 +8,7 @@ MISMATCHES = "mismatches_C13"
 VIOLATIONS = "violations_C13"
 KNOWN = None
 SHARD = 40
-RULE = ("file / directory clashes at the top level and nested, user files named like the state point / document in sub-directories, a caller-owned exclude list reused across two calls, deep syncs after an earlier deep comparison of the same paths followed by a same-size same-mtime change (filecmp cache not cleared by the harness); selection also as one-shot iterables (generator / iter / map / groupby group); seeded random pairs of real projects over the universe of the property text (0-4 jobs each, overlapping / disjoint "
+RULE = ("names of filecmp.DEFAULT_IGNORES on both sides with equal size and mtime but different content; file / directory clashes at the top level and nested, user files named like the state point / document in sub-directories, a caller-owned exclude list reused across two calls, deep syncs after an earlier deep comparison of the same paths followed by a same-size same-mtime change (filecmp cache not cleared by the harness); selection also as one-shot iterables (generator / iter / map / groupby group); seeded random pairs of real projects over the universe of the property text (0-4 jobs each, overlapping / disjoint "
         "ids, files identical / differing / one-sided with explicit mtimes, nested and empty directories, file-vs-directory "
         "clashes, names from filecmp.DEFAULT_IGNORES and names that merely start like the state point / document file, job and "
         "project documents overlapping / nested / conflicting / mixed-type) x options (strategy None/always/never/update/custom, "
@@ -38,7 +38,7 @@ def gen_inputs(tier, rng):
     core, nested, backup = sync_gen.core_file_cases(), sync_gen.core_nested_cases(), sync_gen.core_backup_cases()
     if tier == "quick":
         core, nested, backup = rng.sample(core, 80), rng.sample(nested, 90), rng.sample(backup, 40)
-    return descs + core + nested + backup + _excl(tier, rng) + _round3(tier, rng) + _round4(tier, rng) + sync_gen.core_reuse_cases()
+    return descs + core + nested + backup + _excl(tier, rng) + _round3(tier, rng) + _round4(tier, rng) + _round6(tier, rng) + sync_gen.core_reuse_cases()
 
 def _round3(tier, rng):
     cases = sync_gen.core_selection_cases()
@@ -49,6 +49,11 @@ def _round3(tier, rng):
 def _round4(tier, rng):
     cases = sync_gen.core_clash_cases() + sync_gen.core_reuse_exclude_cases()
     return cases if tier != "quick" else rng.sample(cases, 130)
+
+
+def _round6(tier, rng):
+    cases = sync_gen.core_ignores_cases()
+    return cases if tier != "quick" else rng.sample(cases, 60)
 
 
 def _excl(tier, rng):
